@@ -198,6 +198,20 @@ pub fn corpus(rg: &mut Rg, per_class: usize) -> Vec<EnumSpec> {
         specs.push(gen::gen_table(rg, ne));
         specs.push(gen::gen_disc(rg));
     }
+    // every derive that looks at fields meets all three variant kinds at once, alone on a small enum (the paths a
+    // template emits differ by kind: a slip in one arm must not depend on what the random corpora happen to contain)
+    for d in ["FromRepr", "EnumIter", "EnumCount", "EnumString", "Display", "AsRefStr", "IntoStaticStr", "VariantNames", "EnumIs", "EnumTryAs", "EnumMessage", "EnumProperty"] {
+        let mut e = EnumSpec::new("En");
+        e.derives = derives(&[d]);
+        let mut t = VariantSpec::unit("Tup");
+        t.kind = Kind::Tuple;
+        t.fields = vec![FieldSpec { name: None, ty: FieldTy::U8, default_with: false }];
+        let mut n = VariantSpec::unit("Named");
+        n.kind = Kind::Named;
+        n.fields = vec![FieldSpec { name: Some("len".into()), ty: FieldTy::U8, default_with: false }, FieldSpec { name: Some("on".into()), ty: FieldTy::Bool, default_with: false }];
+        e.variants = vec![VariantSpec::unit("Plain"), t, n];
+        specs.push(e);
+    }
     for s in specs.iter_mut() {
         gen::coreify(s);
     }
